@@ -18,8 +18,8 @@
 //	             + - * & | ^ << == != unary- are the same word operation for both types (u64add …);
 //	             the operations that depend on the sign are printed with their own primitives:
 //	             < <= > >=  ->  i64lt i64le i64gt i64ge,   >>  ->  i64shr (arithmetic shift);
-//	             / and % on int are refused; % on uint64 is u64mod (a zero divisor is a Go run-time
-//	             panic, outside the model); / is refused.
+//	             % on uint64 is u64mod (a zero divisor is a Go run-time panic, outside the model);
+//	             for `/`, and `%` on int, see "v3 additions" below.
 //	             Mixing int and uint64 operands in one operator is refused (Go refuses it too);
 //	             an untyped integer literal takes the type of the other operand.
 //	statements   x := e | x = e | x op= e | x++ | x-- | var x, y T | return [e…] |
@@ -50,6 +50,41 @@
 //	             accepted, and the declarations giving their types are checked in the source.
 //	map loops    `out = make([]T, len(in)); for i, v := range in { out[i] = e(v) }; return`
 //	                 -> in.map (fun v => e)
+//	v3 additions (typed_v3.go: Gen/Params.lean, Gen/PolySplit.lean, Gen/LinTrans.lean)
+//	int / %      `/` and `%` on int are printed as i64div / i64mod: Go's TRUNCATED division and its
+//	             remainder, exact for all operands (MinInt64 / -1 wraps as in Go); a zero divisor is a
+//	             run-time panic, outside the model.  `/` on uint64 is u64div.
+//	constants    `1 << k` with an untyped constant on the left keeps the type "untyped" until an operand
+//	             or an assignment fixes it (Go's rule); `<<`, + - * & | ^ print the same word operation
+//	             for int and uint64, and comparisons / >> / `/` / % of two untyped operands are refused;
+//	             unary minus of a constant (`-1`) is u64neg; math.MaxUint64 is its value.
+//	slices       []uint64 / []int parameters, locals, named results and receiver FIELDS (explicit
+//	             parameters, as for getters; their names get the suffix `_` so that they cannot clash with
+//	             a Go local) are `List Nat`:  len(xs) -> sliceLen,  xs[:k] -> sliceTake xs k,
+//	             xs[i] -> sliceAt xs i,  make([]T, n) -> sliceMake n,  slices.Max(xs) -> slicesMax xs
+//	             ([]uint64 only).  Out-of-range indices / bounds, re-slicing into the capacity and
+//	             slices.Max of an empty slice panic or alias in Go: outside the model (the primitives are
+//	             total: 0 / shorter list).
+//	range fold   `for _, v := range S { assignments to scalars }` with S a slice expression (xs, p.f,
+//	             xs[:k+1], p.M())       -> List.foldl (fun (carried) v => …) (carried) S
+//	             carried = the scalars assigned in the body, in first-assignment order.  May sit inside an
+//	             `if` branch.
+//	tabulate     `for i := range xs { xs[i] = e }` (e does not read xs)
+//	                                    -> xs := (List.range (sliceLen xs)).map (fun i => e)
+//	tuples       `a, b = e1, e2` evaluates both right-hand sides first.
+//	panic        `if c { panic(<anything>) }` (fmt.Errorf(…) too) -> none.
+//	library      bits.Len64 -> len64 (result int).
+//	float64      ONLY `int(math.Exp2(K) / float64(e))` with K a literal and e a uint64: printed as
+//	             f64quoToInt (2^K) (f64ofU64 e), exact IEEE-754 binary64 (round to nearest even) followed by
+//	             Go's truncation.  (The pre-fix formula of QiOverflowMargin; everything else on floats is
+//	             refused: bignum.Polynomial.Depth, FindBestBSGSRatio, LogQ … stay hand-modelled.)
+//	generics     a generic function is printed at ONE instantiation given by the caller (utils.Max at int,
+//	             as `Max_int`).
+//	copy getter  `x := make([]T, len(p.f)); copy(x, p.f); return x`  -> the list p.f itself.
+//	range prefix translateRangePrefix: of a function with one loop `for _, v := range <slice parameter>`
+//	             only the maximal leading run of assignments to identifiers in the loop body is printed, as
+//	             a function of the word parameters and v (BSGSIndex: rot, idxN1, idxN2).  No word
+//	             parameter may be assigned anywhere in the function.
 //	range bodies `for i, s := range r.SubRings[:r.level+1] { body }` of a *Ring method: only the BODY
 //	             is printed, as a function of s.Modulus, s.MRedConstant, s.BRedConstant, the word
 //	             parameters and the [i]-th words of the slice parameters; its value is the word it
@@ -60,6 +95,7 @@ import (
 	"fmt"
 	"go/ast"
 	"go/token"
+	"math/big"
 	"strconv"
 	"strings"
 )
@@ -72,6 +108,7 @@ type tsig struct {
 	opt     bool     // result is an Option
 	method  bool
 	pkg     string            // Go package the function lives in
+	lean    string            // Lean name if different from the Go name (instantiated generics)
 	gchain  map[string]string // getter parameter -> normalised Go text of the receiver access
 }
 
@@ -83,7 +120,8 @@ type tconst struct {
 type tctx struct {
 	sigs      map[string]tsig
 	consts    map[string]tconst
-	pkg       string            // package qualifier accepted in front of known functions/constants ("ring")
+	pkg       string            // package qualifier accepted in front of constants ("ring")
+	pkgs      map[string]bool   // package qualifiers accepted in front of known functions ("ring", "utils", …)
 	curPkg    string            // package of the function being printed
 	pkgConsts map[string]tconst // constants reachable as pkg.Name
 	types     map[string]string // variable -> uint64 | int | pair
@@ -92,11 +130,13 @@ type tctx struct {
 	getters   []string          // getter parameters used, in order of first use
 	gchain    map[string]string // getter parameter -> Go text of the chain
 	tmp       int
+	gsuffix   string // appended to the names of the getter parameters ("_": cannot clash with a Go local)
 
-	optMode bool // function result is an Option
-	fuelFn  bool // function has an explicit fuel parameter
-	inLoop  bool
-	nres    int
+	optMode  bool // function result is an Option
+	fuelFn   bool // function has an explicit fuel parameter
+	inLoop   bool
+	nres     int
+	resTypes []string
 
 	// range-body mode
 	subIdx, subElem string
@@ -117,7 +157,7 @@ func checkLocalName(n ast.Node, name string, c *tctx) {
 	if _, ok := c.consts[name]; ok {
 		refuse("%s: local name %q shadows a constant", pos(n), name)
 	}
-	if _, ok := c.gtypes[name]; ok {
+	if _, ok := c.gtypes[name]; ok && c.gsuffix == "" {
 		refuse("%s: local name %q is named like a receiver getter", pos(n), name)
 	}
 	if _, ok := subRingFields[name]; ok && c.subElem != "" {
@@ -128,6 +168,10 @@ func checkLocalName(n ast.Node, name string, c *tctx) {
 func (c *tctx) fresh() string { c.tmp++; return fmt.Sprintf("t%d_", c.tmp) }
 
 func isWord(t string) bool { return t == "uint64" || t == "int" }
+
+// slices of words are "list:uint64" / "list:int" (printed as `List Nat`)
+func isList(t string) bool   { return strings.HasPrefix(t, "list:") }
+func elemOf(t string) string { return strings.TrimPrefix(t, "list:") }
 
 func unify(n ast.Node, a, b string) string {
 	if a == "const" {
@@ -146,7 +190,27 @@ func leanType(t string) string {
 	if t == "pair" {
 		return "Nat × Nat"
 	}
+	if isList(t) {
+		return "List Nat"
+	}
+	if t == "bool" {
+		return "Bool"
+	}
 	return "Nat"
+}
+
+func leanTuple(ts []string) string {
+	if len(ts) == 1 {
+		return leanType(ts[0])
+	}
+	out := make([]string, len(ts))
+	for i, t := range ts {
+		out[i] = leanType(t)
+		if strings.Contains(out[i], "×") {
+			out[i] = "(" + out[i] + ")"
+		}
+	}
+	return strings.Join(out, " × ")
 }
 
 var arith = map[token.Token]string{token.ADD: "u64add", token.SUB: "u64sub", token.MUL: "u64mul",
@@ -166,6 +230,11 @@ func (c *tctx) binop(n ast.Node, op token.Token, xs, xt, ys, yt string) (string,
 		}
 		return "(" + xs + o + ys + ")", "bool"
 	case token.SHL, token.SHR:
+		if xt == "const" && op == token.SHL && isWord(yt) {
+			// `1 << k`: the untyped constant takes its type from the context; `<<` is the same word
+			// operation for int and uint64, so the result stays "const" until the context decides
+			return "(u64shl " + xs + " " + ys + ")", "const"
+		}
 		if !isWord(xt) {
 			refuse("%s: shift of a %s", pos(n), xt)
 		}
@@ -200,16 +269,17 @@ func (c *tctx) binop(n ast.Node, op token.Token, xs, xt, ys, yt string) (string,
 			f = cmpI[op]
 		}
 		return "(" + f + " " + xs + " " + ys + ")", "bool"
-	case token.REM:
+	case token.REM, token.QUO:
 		t := unify(n, xt, yt)
-		if t != "uint64" {
-			refuse("%s: %% on %s not supported", pos(n), t)
+		if !isWord(t) {
+			refuse("%s: %s on %s not supported", pos(n), op, t)
 		}
-		return "(u64mod " + xs + " " + ys + ")", t
+		f := map[string]string{"uint64%": "u64mod", "uint64/": "u64div", "int%": "i64mod", "int/": "i64div"}[t+op.String()]
+		return "(" + f + " " + xs + " " + ys + ")", t
 	}
 	if f, ok := arith[op]; ok {
 		t := unify(n, xt, yt)
-		if !isWord(t) {
+		if !isWord(t) && t != "const" {
 			refuse("%s: operator %s on %s", pos(n), op, t)
 		}
 		return "(" + f + " " + xs + " " + ys + ")", t
@@ -235,7 +305,7 @@ func (c *tctx) getter(n ast.Node, name, chain string) (string, string) {
 		c.gchain[name] = chain
 		c.getters = append(c.getters, name)
 	}
-	return ident(name), t
+	return ident(name) + c.gsuffix, t
 }
 
 // chainText prints a selector chain rooted at the receiver (`p.ringQ.NthRoot`), or "" if e is not one.
@@ -280,7 +350,7 @@ func (c *tctx) expr(e ast.Expr) (string, string) {
 	case *ast.BinaryExpr:
 		xs, xt := c.expr(x.X)
 		ys, yt := c.expr(x.Y)
-		if xt == "const" && yt == "const" {
+		if isLit(x.X) && isLit(x.Y) {
 			refuse("%s: constant expression not supported", pos(e))
 		}
 		return c.binop(e, x.Op, xs, xt, ys, yt)
@@ -288,7 +358,7 @@ func (c *tctx) expr(e ast.Expr) (string, string) {
 		xs, xt := c.expr(x.X)
 		switch x.Op {
 		case token.SUB:
-			if !isWord(xt) {
+			if !isWord(xt) && xt != "const" {
 				refuse("%s: unary - on %s", pos(e), xt)
 			}
 			return "(u64neg " + xs + ")", xt
@@ -299,10 +369,32 @@ func (c *tctx) expr(e ast.Expr) (string, string) {
 			return "(!" + xs + ")", "bool"
 		}
 		refuse("%s: unary %s not supported", pos(e), x.Op)
+	case *ast.SliceExpr:
+		if x.Low != nil || x.High == nil || x.Slice3 {
+			refuse("%s: only xs[:k] is supported", pos(e))
+		}
+		bs, bt := c.expr(x.X)
+		if !isList(bt) {
+			refuse("%s: slicing a %s", pos(e), bt)
+		}
+		hs, ht := c.expr(x.High)
+		if !isWord(ht) && ht != "const" {
+			refuse("%s: slice bound of type %s", pos(e), ht)
+		}
+		return "(sliceTake " + bs + " " + hs + ")", bt
 	case *ast.IndexExpr:
 		id, ok := x.X.(*ast.Ident)
-		if !ok {
-			refuse("%s: index base not an identifier", pos(e))
+		if !ok || isList(c.types[id.Name]) {
+			// xs[i] on a slice of words (a local, a parameter or a receiver field)
+			bs, bt := c.expr(x.X)
+			if !isList(bt) {
+				refuse("%s: indexing a %s", pos(e), bt)
+			}
+			is, it := c.expr(x.Index)
+			if !isWord(it) && it != "const" {
+				refuse("%s: index of type %s", pos(e), it)
+			}
+			return "(sliceAt " + bs + " " + is + ")", elemOf(bt)
 		}
 		if c.subSlices[id.Name] {
 			if k, ok := x.Index.(*ast.Ident); !ok || k.Name != c.subIdx {
@@ -335,6 +427,12 @@ func (c *tctx) expr(e ast.Expr) (string, string) {
 					k = "uint64"
 				}
 				return x.Sel.Name, k
+			}
+			if v, ok := libConsts[p.Name+"."+x.Sel.Name]; ok && p.Name != c.recv {
+				if _, shadow := c.types[p.Name]; shadow {
+					refuse("%s: %s is shadowed", pos(e), p.Name)
+				}
+				return v, "const"
 			}
 			if c.pkg != "" && p.Name == c.pkg {
 				if _, shadow := c.types[p.Name]; shadow {
@@ -375,12 +473,18 @@ func (c *tctx) call(x *ast.CallExpr) (string, string) {
 			refuse("%s: call of a local", pos(x))
 		}
 	case *ast.SelectorExpr:
-		if p, ok := f.X.(*ast.Ident); ok && c.pkg != "" && p.Name == c.pkg {
+		if p, ok := f.X.(*ast.Ident); ok && (libCalls[p.Name+"."+f.Sel.Name] || c.pkgs[p.Name]) {
 			if _, shadow := c.types[p.Name]; shadow {
 				refuse("%s: %s is shadowed", pos(x), p.Name)
 			}
+			if p.Name == c.recv {
+				refuse("%s: receiver named like a package", pos(x))
+			}
 			name = f.Sel.Name
-			callPkg = c.pkg
+			callPkg = p.Name
+			if libCalls[p.Name+"."+f.Sel.Name] {
+				return c.libCall(x, p.Name+"."+f.Sel.Name)
+			}
 		} else if ch := c.chainText(f); ch != "" {
 			if p, ok := f.X.(*ast.Ident); ok && p.Name == c.recv {
 				if s, ok := c.sigs[f.Sel.Name]; ok && s.method {
@@ -397,10 +501,28 @@ func (c *tctx) call(x *ast.CallExpr) (string, string) {
 	if name == "" {
 		refuse("%s: callee not supported", pos(x))
 	}
+	if _, isFn := x.Fun.(*ast.Ident); isFn && (name == "len" || name == "make" || name == "float64") {
+		return c.libCall(x, name)
+	}
 	switch name {
 	case "uint64", "int":
 		if len(x.Args) != 1 {
 			refuse("%s: conversion arity", pos(x))
+		}
+		if _, isFn := x.Fun.(*ast.Ident); !isFn {
+			refuse("%s: qualified conversion", pos(x))
+		}
+		if name == "int" {
+			// int(x / y) on float64 operands with positive integer values (QiOverflowMargin)
+			if q, ok := unparen(x.Args[0]).(*ast.BinaryExpr); ok && q.Op == token.QUO {
+				if as, at := c.f64expr(q.X); at == "f64" {
+					bs, bt := c.f64expr(q.Y)
+					if bt != "f64" {
+						refuse("%s: mixed float / integer division", pos(x))
+					}
+					return "(f64quoToInt " + as + " " + bs + ")", "int"
+				}
+			}
 		}
 		s, t := c.expr(x.Args[0])
 		if !isWord(t) && t != "const" {
@@ -424,6 +546,9 @@ func (c *tctx) call(x *ast.CallExpr) (string, string) {
 	if !ok {
 		refuse("%s: call to %q not supported", pos(x), name)
 	}
+	if len(sg.results) == 1 && isList(sg.results[0]) && !method {
+		refuse("%s: call to %q", pos(x), name)
+	}
 	if sg.method != method || sg.pkg != callPkg {
 		refuse("%s: %q called as the wrong kind of function / from the wrong package", pos(x), name)
 	}
@@ -433,11 +558,15 @@ func (c *tctx) call(x *ast.CallExpr) (string, string) {
 	if len(x.Args) != len(sg.params) {
 		refuse("%s: call to %q: arity", pos(x), name)
 	}
-	out := "(" + name
+	lname := name
+	if sg.lean != "" {
+		lname = sg.lean
+	}
+	out := "(" + lname
 	for _, g := range sg.getters {
 		// the callee reads the same receiver: hand the caller's getter parameter through
 		c.getter(x, g, sg.gchain[g])
-		out += " " + ident(g)
+		out += " " + ident(g) + c.gsuffix
 	}
 	for i, a := range x.Args {
 		s, t := c.expr(a)
@@ -447,6 +576,115 @@ func (c *tctx) call(x *ast.CallExpr) (string, string) {
 		out += " " + s
 	}
 	return out + ")", sg.results[0]
+}
+
+// libCalls are the library functions printed as primitives of Lattigo/Word.lean.
+var libCalls = map[string]bool{"bits.Len64": true, "slices.Max": true}
+
+// libConsts are the untyped integer constants of the standard library the printer knows.
+var libConsts = map[string]string{"math.MaxUint64": "18446744073709551615"}
+
+func unparen(e ast.Expr) ast.Expr {
+	for {
+		p, ok := e.(*ast.ParenExpr)
+		if !ok {
+			return e
+		}
+		e = p.X
+	}
+}
+
+func isLit(e ast.Expr) bool {
+	_, ok := unparen(e).(*ast.BasicLit)
+	return ok
+}
+
+func (c *tctx) libCall(x *ast.CallExpr, name string) (string, string) {
+	arg := func(i int) (string, string) { return c.expr(x.Args[i]) }
+	switch name {
+	case "len":
+		if len(x.Args) != 1 {
+			refuse("%s: len arity", pos(x))
+		}
+		s, t := arg(0)
+		if !isList(t) {
+			refuse("%s: len of a %s", pos(x), t)
+		}
+		return "(sliceLen " + s + ")", "int"
+	case "make":
+		if len(x.Args) != 2 {
+			refuse("%s: only make([]T, n) is supported", pos(x))
+		}
+		t := valType(x.Args[0], nil)
+		if !isList(t) {
+			refuse("%s: make of a non-slice", pos(x))
+		}
+		s, nt := arg(1)
+		if !isWord(nt) && nt != "const" {
+			refuse("%s: make length of type %s", pos(x), nt)
+		}
+		return "(sliceMake " + s + ")", t
+	case "bits.Len64":
+		if len(x.Args) != 1 {
+			refuse("%s: bits.Len64 arity", pos(x))
+		}
+		s, t := arg(0)
+		if t != "uint64" {
+			refuse("%s: bits.Len64 of a %s", pos(x), t)
+		}
+		return "(len64 " + s + ")", "int"
+	case "slices.Max":
+		if len(x.Args) != 1 {
+			refuse("%s: slices.Max arity", pos(x))
+		}
+		s, t := arg(0)
+		if t != "list:uint64" {
+			refuse("%s: slices.Max of a %s (only []uint64)", pos(x), t)
+		}
+		return "(slicesMax " + s + ")", "uint64"
+	}
+	refuse("%s: %s not supported here", pos(x), name)
+	return "", ""
+}
+
+// f64expr: the two float64 expressions the printer knows, both with POSITIVE INTEGER values, printed as
+// that integer: `math.Exp2(K)` (K a literal <= 64) and `float64(e)` for a uint64 `e` (round to
+// nearest even: `f64ofU64`).  Returns type "" if e is not one of them.
+func (c *tctx) f64expr(e ast.Expr) (string, string) {
+	call, ok := unparen(e).(*ast.CallExpr)
+	if !ok || len(call.Args) != 1 {
+		return "", ""
+	}
+	switch f := call.Fun.(type) {
+	case *ast.Ident:
+		if f.Name == "float64" {
+			if _, shadow := c.types["float64"]; shadow {
+				return "", ""
+			}
+			s, t := c.expr(call.Args[0])
+			if t != "uint64" {
+				refuse("%s: float64 of a %s (only uint64)", pos(e), t)
+			}
+			return "(f64ofU64 " + s + ")", "f64"
+		}
+	case *ast.SelectorExpr:
+		if p, ok := f.X.(*ast.Ident); ok && p.Name == "math" && f.Sel.Name == "Exp2" {
+			if _, shadow := c.types["math"]; shadow || c.recv == "math" {
+				return "", ""
+			}
+			l, ok := call.Args[0].(*ast.BasicLit)
+			if !ok || l.Kind != token.INT {
+				refuse("%s: math.Exp2 of a non-literal", pos(e))
+			}
+			k, err := strconv.Atoi(l.Value)
+			if err != nil || k < 0 || k > 64 {
+				refuse("%s: math.Exp2(%s)", pos(e), l.Value)
+			}
+			v := new(big.Int).Lsh(big.NewInt(1), uint(k))
+			return v.String(), "f64"
+		}
+	}
+	return "", ""
 }
 
 // ---- statements ----
@@ -481,7 +719,7 @@ func (c *tctx) tassigned(stmts []ast.Stmt, acc *[]string, seen, declared map[str
 					}
 				case *ast.IndexExpr:
 					id, ok := t.X.(*ast.Ident)
-					if !ok || !c.subSlices[id.Name] {
+					if !ok || !(c.subSlices[id.Name] || isList(c.types[id.Name])) {
 						refuse("%s: assignment target", pos(l))
 					}
 					add(id.Name)
@@ -489,6 +727,14 @@ func (c *tctx) tassigned(stmts []ast.Stmt, acc *[]string, seen, declared map[str
 					refuse("%s: assignment target", pos(l))
 				}
 			}
+		case *ast.RangeStmt:
+			d1 := copySet(declared)
+			for _, kv := range []ast.Expr{x.Key, x.Value} {
+				if id, ok := kv.(*ast.Ident); ok {
+					d1[id.Name] = true
+				}
+			}
+			c.tassigned(x.Body.List, acc, seen, d1)
 		case *ast.IncDecStmt:
 			id, ok := x.X.(*ast.Ident)
 			if !ok {
@@ -570,6 +816,20 @@ func containsLoop(stmts []ast.Stmt) bool {
 	return found
 }
 
+// containsForLoop: a `for` statement proper (range loops are plain `let`s and may sit in branches).
+func containsForLoop(stmts []ast.Stmt) bool {
+	found := false
+	for _, s := range stmts {
+		ast.Inspect(s, func(n ast.Node) bool {
+			if _, ok := n.(*ast.ForStmt); ok {
+				found = true
+			}
+			return true
+		})
+	}
+	return found
+}
+
 func isPanicBody(b *ast.BlockStmt) bool {
 	if len(b.List) != 1 {
 		return false
@@ -586,8 +846,8 @@ func isPanicBody(b *ast.BlockStmt) bool {
 	if !ok || id.Name != "panic" {
 		return false
 	}
-	l, ok := call.Args[0].(*ast.BasicLit)
-	return ok && l.Kind == token.STRING
+	// the argument (a string, fmt.Errorf(…), …) is not evaluated: a panic is `none` whatever it carries
+	return true
 }
 
 // target resolves an assignment target to (variable name, declared type or "").
@@ -600,6 +860,9 @@ func (c *tctx) target(l ast.Expr) string {
 		return t.Name
 	case *ast.IndexExpr:
 		id, ok := t.X.(*ast.Ident)
+		if ok && isList(c.types[id.Name]) {
+			refuse("%s: element assignment %s[…] = … is only supported as the whole body of `for i := range %s`", pos(l), id.Name, id.Name)
+		}
 		if !ok || !c.subSlices[id.Name] {
 			refuse("%s: assignment target", pos(l))
 		}
@@ -634,7 +897,7 @@ func (c *tctx) assignTo(n ast.Node, name string, define bool, s, t string) strin
 		if t == "const" {
 			t = "int"
 		}
-		if !isWord(t) && t != "pair" {
+		if !isWord(t) && t != "pair" && !isList(t) {
 			refuse("%s: := of a %s", pos(n), t)
 		}
 		c.types[name] = t
@@ -668,7 +931,11 @@ func (c *tctx) stmts(list []ast.Stmt, fr frame, sep string) string {
 		}
 		rs := make([]string, len(x.Results))
 		for i, r := range x.Results {
-			rs[i], _ = c.wordExpr(r)
+			var t string
+			rs[i], t = c.wordExpr(r)
+			if c.resTypes != nil && unify(r, t, c.resTypes[i]) != c.resTypes[i] {
+				refuse("%s: result %d has type %s, want %s", pos(r), i, t, c.resTypes[i])
+			}
 		}
 		return fr.ret(rs)
 	case *ast.DeclStmt:
@@ -712,6 +979,8 @@ func (c *tctx) stmts(list []ast.Stmt, fr frame, sep string) string {
 		return c.ifStmt(x, rest, fr, sep)
 	case *ast.ForStmt:
 		return c.forStmt(x, rest, fr, sep)
+	case *ast.RangeStmt:
+		return c.rangeStmt(x) + sep + c.stmts(rest, fr, sep)
 	}
 	refuse("%s: statement %T not supported", pos(s), s)
 	return ""
@@ -727,6 +996,29 @@ func (c *tctx) wordExpr(e ast.Expr) (string, string) {
 }
 
 func (c *tctx) assign(x *ast.AssignStmt) string {
+	if len(x.Lhs) == len(x.Rhs) && len(x.Lhs) > 1 && x.Tok == token.ASSIGN {
+		// a, b = e1, e2: all right-hand sides are evaluated before any assignment
+		out := ""
+		tmps := make([]string, len(x.Rhs))
+		tys := make([]string, len(x.Rhs))
+		for i, r := range x.Rhs {
+			var s string
+			s, tys[i] = c.wordExpr(r)
+			tmps[i] = c.fresh()
+			out += "let " + tmps[i] + " := " + s + "; "
+		}
+		for i, l := range x.Lhs {
+			id, ok := l.(*ast.Ident)
+			if !ok || id.Name == "_" {
+				refuse("%s: tuple assignment target", pos(l))
+			}
+			out += c.assignTo(l, id.Name, false, tmps[i], tys[i])
+			if i < len(x.Lhs)-1 {
+				out += "; "
+			}
+		}
+		return out
+	}
 	if len(x.Lhs) != 1 || len(x.Rhs) != 1 {
 		refuse("%s: only single assignments are supported", pos(x))
 	}
@@ -796,8 +1088,8 @@ func (c *tctx) ifStmt(x *ast.IfStmt, rest []ast.Stmt, fr frame, sep string) stri
 		blocks = append(blocks, eb.List)
 	}
 	for _, b := range blocks {
-		if containsReturn(b) || containsLoop(b) {
-			refuse("%s: return / loop inside a non-returning branch not supported", pos(x))
+		if containsReturn(b) || containsForLoop(b) {
+			refuse("%s: return / for loop inside a non-returning branch not supported", pos(x))
 		}
 	}
 	var vs []string
@@ -854,6 +1146,152 @@ func (c *tctx) ifStmt(x *ast.IfStmt, rest []ast.Stmt, fr frame, sep string) stri
 		out += "let " + v + " := " + proj(t, i, len(ivs)) + sep
 	}
 	return out + c.stmts(rest, fr, sep)
+}
+
+// rangeStmt prints the two supported range loops (both are plain `let`s):
+//
+//	tabulate   for i := range xs { xs[i] = e }          xs a slice variable, e does not mention xs
+//	               -> let xs := (List.range (sliceLen xs)).map (fun i => e)
+//	fold       for _, v := range S { assignments }      S a slice expression (xs, p.f, xs[:k], p.M())
+//	               -> let (vars) := S.foldl (fun (vars) v => assignments; (vars)) (vars)
+//	           the carried variables are the scalars assigned in the body, in first-assignment order
+func (c *tctx) rangeStmt(r *ast.RangeStmt) string {
+	if c.inLoop {
+		refuse("%s: nested loops not supported", pos(r))
+	}
+	if r.Tok != token.DEFINE {
+		refuse("%s: range without :=", pos(r))
+	}
+	key, _ := r.Key.(*ast.Ident)
+	if key == nil {
+		refuse("%s: range key", pos(r))
+	}
+	if containsLoop(r.Body.List) || containsReturn(r.Body.List) {
+		refuse("%s: loop / return inside a range body not supported", pos(r))
+	}
+	if r.Value == nil {
+		// tabulate
+		xs, ok := r.X.(*ast.Ident)
+		if !ok || !isList(c.types[xs.Name]) || c.subSlices[xs.Name] {
+			refuse("%s: `for i := range xs` needs a slice variable", pos(r))
+		}
+		if key.Name == "_" || len(r.Body.List) != 1 {
+			refuse("%s: tabulate loop body must be the single statement %s[i] = e", pos(r), xs.Name)
+		}
+		as, ok := r.Body.List[0].(*ast.AssignStmt)
+		if !ok || as.Tok != token.ASSIGN || len(as.Lhs) != 1 || len(as.Rhs) != 1 {
+			refuse("%s: tabulate loop body must be %s[i] = e", pos(r), xs.Name)
+		}
+		ix, ok := as.Lhs[0].(*ast.IndexExpr)
+		if !ok {
+			refuse("%s: tabulate loop body must be %s[i] = e", pos(r), xs.Name)
+		}
+		if b, ok := ix.X.(*ast.Ident); !ok || b.Name != xs.Name {
+			refuse("%s: tabulate loop writes another slice", pos(r))
+		}
+		if k, ok := ix.Index.(*ast.Ident); !ok || k.Name != key.Name {
+			refuse("%s: tabulate loop writes at another index", pos(r))
+		}
+		if usesIdent(as.Rhs[0], xs.Name) {
+			refuse("%s: tabulate loop reads the slice it writes", pos(r))
+		}
+		if _, clash := c.types[key.Name]; clash {
+			refuse("%s: range variable %s shadows", pos(r), key.Name)
+		}
+		checkLocalName(key, key.Name, c)
+		saved := c.types
+		c.types = copyTypes(saved)
+		c.types[key.Name] = "int"
+		es, et := c.wordExpr(as.Rhs[0])
+		c.types = saved
+		if unify(as, et, elemOf(c.types[xs.Name])) != elemOf(c.types[xs.Name]) {
+			refuse("%s: element type", pos(as))
+		}
+		return "let " + ident(xs.Name) + " := (List.range (sliceLen " + ident(xs.Name) + ")).map (fun " + ident(key.Name) + " => " + es + ")"
+	}
+	// fold
+	if key.Name != "_" {
+		refuse("%s: only `for _, v := range S` is supported (the index is not)", pos(r))
+	}
+	val, ok := r.Value.(*ast.Ident)
+	if !ok || val.Name == "_" {
+		refuse("%s: range value", pos(r))
+	}
+	ss, st := c.expr(r.X)
+	if !isList(st) {
+		refuse("%s: range over a %s", pos(r), st)
+	}
+	if _, clash := c.types[val.Name]; clash {
+		refuse("%s: range variable %s shadows", pos(r), val.Name)
+	}
+	checkLocalName(val, val.Name, c)
+	var vs []string
+	declared := map[string]bool{val.Name: true}
+	c.tassigned(r.Body.List, &vs, map[string]bool{}, declared)
+	if len(vs) == 0 {
+		refuse("%s: range body assigns nothing", pos(r))
+	}
+	for d := range declared {
+		if _, ok := c.types[d]; ok && d != val.Name {
+			refuse("%s: range body redeclares %s", pos(r), d)
+		}
+	}
+	names := make([]string, len(vs))
+	tys := make([]string, len(vs))
+	for i, v := range vs {
+		t, ok := c.types[v]
+		if !ok || !(isWord(t) || t == "pair") {
+			refuse("%s: range-carried %s is not a declared word variable", pos(r), v)
+		}
+		names[i], tys[i] = ident(v), leanType(t)
+	}
+	stTy := strings.Join(tys, " × ")
+	unpack := ""
+	for i, v := range names {
+		unpack += "let " + v + " := " + proj("st_", i, len(names)) + "; "
+	}
+	saved := c.types
+	c.types = copyTypes(saved)
+	c.types[val.Name] = elemOf(st)
+	c.inLoop = true
+	body := c.stmts(r.Body.List, frame{fall: tupleOf(names), ret: func([]string) string { refuse("%s: return in a range body", pos(r)); return "" }}, "; ")
+	c.inLoop = false
+	c.types = saved
+	t := c.fresh()
+	out := "let " + t + " := List.foldl (fun (st_ : " + stTy + ") (" + ident(val.Name) + " : Nat) => " + unpack + body + ") " + tupleOf(names) + " " + ss
+	for i, v := range names {
+		out += "; let " + v + " := " + proj(t, i, len(names))
+	}
+	return out
+}
+
+// valType: the printer's type of a Go type expression ("" = unsupported); subst instantiates type
+// parameters of a generic function.
+func valType(e ast.Expr, subst map[string]string) string {
+	switch t := e.(type) {
+	case *ast.Ident:
+		if t.Name == "uint64" || t.Name == "int" {
+			return t.Name
+		}
+		if s, ok := subst[t.Name]; ok {
+			return s
+		}
+	case *ast.ArrayType:
+		el, ok := t.Elt.(*ast.Ident)
+		if !ok {
+			return ""
+		}
+		if t.Len == nil {
+			if el.Name == "uint64" || el.Name == "int" {
+				return "list:" + el.Name
+			}
+			return ""
+		}
+		if l, ok := t.Len.(*ast.BasicLit); ok && l.Value == "2" && el.Name == "uint64" {
+			return "pair"
+		}
+	}
+	return ""
 }
 
 // ruleS recognises `cond: v > 0 | v != 0`, `post: v >>= K` (K literal >= 1), v unassigned in the body.
@@ -1100,10 +1538,21 @@ type tenv struct {
 	pkgConsts map[string]tconst // constants visible as pkg.Name
 	recvType  string
 	gtypes    map[string]string // accepted receiver getters / fields -> type
+	pkgs      []string          // package qualifiers accepted in front of printed functions
+	typeSubst map[string]string // instantiation of the type parameters of a generic function
+	leanName  string            // Lean name of the definition if different from the Go name
+	gsuffix   string            // suffix of the getter parameters' names
 }
 
 func newTctx(env tenv) *tctx {
-	return &tctx{sigs: env.sigs, consts: env.consts, pkg: env.pkg, curPkg: env.curPkg, pkgConsts: env.pkgConsts,
+	pkgs := map[string]bool{}
+	if env.pkg != "" {
+		pkgs[env.pkg] = true
+	}
+	for _, p := range env.pkgs {
+		pkgs[p] = true
+	}
+	return &tctx{sigs: env.sigs, consts: env.consts, pkg: env.pkg, pkgs: pkgs, curPkg: env.curPkg, pkgConsts: env.pkgConsts, gsuffix: env.gsuffix,
 		types: map[string]string{}, gtypes: env.gtypes, gchain: map[string]string{}, subSlices: map[string]bool{}}
 }
 
@@ -1140,13 +1589,20 @@ func translateTypedFunc(fd *ast.FuncDecl, goName string, env tenv) (string, tfun
 		refuse("%s: %s: unexpected receiver", pos(fd), name)
 	}
 	if fd.Type.TypeParams != nil {
-		refuse("%s: %s: type parameters", pos(fd), name)
+		for _, tp := range fd.Type.TypeParams.List {
+			for _, n := range tp.Names {
+				if _, ok := env.typeSubst[n.Name]; !ok {
+					refuse("%s: %s: type parameter %s is not instantiated", pos(fd), name, n.Name)
+				}
+			}
+		}
 	}
 	var sg tsig
 	sg.method = recvType != ""
+	sg.lean = env.leanName
 	var pnames []string
 	for _, f := range fd.Type.Params.List {
-		t := wordType(f.Type)
+		t := valType(f.Type, env.typeSubst)
 		if t == "" {
 			refuse("%s: %s: parameter type not supported", pos(f), name)
 		}
@@ -1165,8 +1621,8 @@ func translateTypedFunc(fd *ast.FuncDecl, goName string, env tenv) (string, tfun
 	}
 	var named []string
 	for _, r := range fd.Type.Results.List {
-		t := wordType(r.Type)
-		if !isWord(t) {
+		t := valType(r.Type, env.typeSubst)
+		if !isWord(t) && !isList(t) {
 			refuse("%s: %s: result type not supported", pos(r), name)
 		}
 		if len(r.Names) == 0 {
@@ -1180,6 +1636,7 @@ func translateTypedFunc(fd *ast.FuncDecl, goName string, env tenv) (string, tfun
 		}
 	}
 	c.nres = len(sg.results)
+	c.resTypes = sg.results
 	if len(named) != 0 && len(named) != c.nres {
 		refuse("%s: %s: mixed named and unnamed results", pos(fd), name)
 	}
@@ -1199,7 +1656,11 @@ func translateTypedFunc(fd *ast.FuncDecl, goName string, env tenv) (string, tfun
 	inamed := make([]string, len(named))
 	for i, n := range named {
 		inamed[i] = ident(n)
-		pre += "  let " + inamed[i] + " := 0\n"
+		if isList(c.types[n]) {
+			pre += "  let " + inamed[i] + " : List Nat := []\n"
+		} else {
+			pre += "  let " + inamed[i] + " := 0\n"
+		}
 	}
 	fr := frame{}
 	fr.ret = func(rs []string) string {
@@ -1232,19 +1693,23 @@ func translateTypedFunc(fd *ast.FuncDecl, goName string, env tenv) (string, tfun
 		meta.Fuel = "64 (rule S: `v > 0` / `v != 0` with `v >>= K`, K >= 1, v a 64-bit word not assigned in the body)"
 	}
 	for _, g := range c.getters {
-		lp += " (" + ident(g) + " : " + leanType(gtypes[g]) + ")"
+		lp += " (" + ident(g) + c.gsuffix + " : " + leanType(gtypes[g]) + ")"
 		meta.Getters = append(meta.Getters, g+" = "+c.gchain[g])
 	}
 	for i, n := range pnames {
 		lp += " (" + ident(n) + " : " + leanType(sg.params[i]) + ")"
 		meta.Params = append(meta.Params, n+":"+sg.params[i])
 	}
-	rt := natTuple(c.nres)
+	rt := leanTuple(sg.results)
 	if c.optMode {
 		rt = "Option (" + rt + ")"
 	}
 	meta.Result = rt
 	sigs[name] = sg
+	if env.leanName != "" {
+		name = env.leanName
+		meta.Name = name
+	}
 	doc := "/-- `" + goName + "`"
 	if len(meta.Getters) > 0 {
 		doc += "; explicit parameters for receiver reads: " + strings.Join(meta.Getters, ", ")
@@ -1373,7 +1838,7 @@ func translateMapRange(fd *ast.FuncDecl, goName string, env tenv) (string, tfunc
 	lp := ""
 	meta := tfuncMeta{Name: name, Go: goName, Params: []string{in + ":[]" + el.Name}, Result: "List Nat"}
 	for _, g := range c.getters {
-		lp += " (" + ident(g) + " : " + leanType(gtypes[g]) + ")"
+		lp += " (" + ident(g) + c.gsuffix + " : " + leanType(gtypes[g]) + ")"
 		meta.Getters = append(meta.Getters, g+" = "+c.gchain[g])
 	}
 	doc := "/-- `" + goName + "`: `for i, " + vi.Name + " := range " + in + " { " + out + "[i] = … }`"
